@@ -503,6 +503,37 @@ def reused_parser(_=None) -> List[Optional[Dict[str, Any]]]:
                         break
                 else:
                     out.append(None)
+        # the options of a file are read first, then the file itself is parsed by the SAME Parser object (what a build script that
+        # looks at AUTO_PAD / IMPORT_COREDEFS before compiling does): every conflict is still found, every definition still there
+        for graph in ("single", "imported"):
+            for fail, extra in list(late_failures.items()) + [("ok", [])]:
+                secs = {k: list(v) for k, v in everything.items()}
+                secs["message_defs"] = secs["message_defs"] + extra
+                sub = f"opt_{graph}_{fail}"
+                if graph == "single":
+                    root = write(f"{sub}/root.yaml", secs)
+                else:
+                    write(f"{sub}/lib.yaml", {k: v for k, v in secs.items() if k != "message_defs"})
+                    root = write(f"{sub}/root.yaml", {"message_defs": secs["message_defs"]}, imports=["lib.yaml"])
+                for core_on in (False, True):
+                    pr = PP.Parser(import_coredefs=core_on)
+                    for h in list(pr.logger.handlers):
+                        pr.logger.removeHandler(h)
+                    try:
+                        with contextlib.redirect_stdout(io.StringIO()), contextlib.redirect_stderr(io.StringIO()):
+                            pr.parse_compiler_options(root)
+                    except Exception as e:
+                        out.append({"kind": "verdict", "cls": "options-then-parse", "expected": "options read", "got": type(e).__name__, "case": {"cls": "options-then-parse", "graph": graph}})
+                        continue
+                    v = parse(pr, root)
+                    have = sorted(n for sec in ("constants", "string_constants", "aliases", "struct_defs", "message_defs", "module_ids", "host_ids") for n in getattr(pr, sec)
+                                  if n.startswith("KEEP_")) if v == "ok" else None
+                    want = sorted(["KEEP_C", "KEEP_S", "KEEP_A", "KEEP_H", "KEEP_M", "KEEP_ST", "KEEP_MS", "KEEP_SIG"]) if fail == "ok" else None
+                    if v != fail or have != want:
+                        out.append({"kind": "verdict" if v != fail else "registry", "cls": "options-then-parse", "expected": fail, "got": v, "section": "all", "have": have,
+                                    "case": {"cls": "options-then-parse", "graph": graph, "conflict": fail, "core": core_on}})
+                    else:
+                        out.append(None)
     finally:
         core.rmtree(d)
     return out
